@@ -14,3 +14,5 @@ INVARIANT LawOnlyRestr
 INVARIANT LawOutDomain
 INVARIANT LawNeutral
 INVARIANT LawControl
+INVARIANT LawRoute
+INVARIANT LawSiblings
